@@ -127,6 +127,9 @@ func (r *vjReplayer) Put(m *Message, topics []string) (*Message, error) {
 	case 2:
 		r.env.replayerPanic = true
 		r.env.add(vjEvent{kind: vjPut, i: -2, m: k, err: vjErrPut})
+		if verifChoose("panic-value", 2) == 1 {
+			panic(vjErrPut) // a panic whose value is an error (e.g. a runtime error)
+		}
 		panic("verif: replayer panics in Put")
 	}
 	r.env.puts = append(r.env.puts, k)
@@ -146,6 +149,9 @@ func (r *vjReplayer) Replay(sub Subscription) error {
 	if outcome == 2 {
 		r.env.replayerPanic = true
 		r.env.add(vjEvent{kind: vjReplay, i: i, m: -2, err: vjErrReplay})
+		if verifChoose("panic-value", 2) == 1 {
+			panic(vjErrReplay)
+		}
 		panic("verif: replayer panics in Replay")
 	}
 	if outcome == 1 {
@@ -256,7 +262,11 @@ func vjRun(nsub, nmsg, nshut int, cancel bool, clientFaults bool, replayer int, 
 	for i := 0; i < nsub; i++ {
 		ctx := &vhCtx{done: make(chan struct{})}
 		s.ctxs = append(s.ctxs, ctx)
-		s.stopics = append(s.stopics, mkTopics("stopic"))
+		if verifParam("EMPTYTOPICS", 0) == 1 && i == 0 {
+			s.stopics = append(s.stopics, []string{}) // a subscription without topics (made through the Provider directly)
+		} else {
+			s.stopics = append(s.stopics, mkTopics("stopic"))
+		}
 		cl := &vjClient{env: s.env, i: i, msgOf: s.msgOf, canFail: clientFaults}
 		subs[i] = Subscription{Client: cl, Topics: s.stopics[i]}
 		if resume && replayer > 0 {
@@ -531,6 +541,14 @@ func (s *vjScenario) checkDelivery(prefix string) {
 	for i := 0; i < s.nsub; i++ {
 		cancelPos := s.pos(vjCancelReq, i, -2)
 		errPos, _ := s.firstClientError(i)
+		// once a Send/Flush of i has failed, i has been removed: nothing more is handed to it
+		if errPos >= 0 {
+			for p, e := range log {
+				if (e.kind == vjSend || e.kind == vjFlush) && e.i == i && p > errPos {
+					verifAssert(false, prefix+"/nothing-handed-to-a-subscriber-after-it-failed")
+				}
+			}
+		}
 		lastSent := -1 // put position of the last message sent to i
 		for k := 0; k < s.nmsg; k++ {
 			// Send calls for message k to subscriber i
